@@ -636,14 +636,17 @@ func (e *Exec) Do(op Op) Resp {
 		e.Extra[repo] = true
 		return r
 	case "GCPass":
+		// the pass of the tick `now`; the previous tick was a minute ago and every repository was last modified
+		// right at that previous tick: the pass must visit all of them
 		now := time.Now()
+		prev := now.Add(-time.Minute)
 		for _, rm := range e.Cat.Repos {
-			_ = e.Srv.S.VerifSetRepoTime(e.Cat.RepoReal[rm], now)
+			_ = e.Srv.S.VerifSetRepoTime(e.Cat.RepoReal[rm], prev)
 		}
 		for x := range e.Extra {
-			_ = e.Srv.S.VerifSetRepoTime(x, now)
+			_ = e.Srv.S.VerifSetRepoTime(x, prev)
 		}
-		err := e.Srv.S.VerifGCPass(now, now.Add(-time.Minute))
+		err := e.Srv.S.VerifGCPass(now, prev)
 		r := Resp{Status: 200, Off: -1, StOff: -1, Len: -1, Codes: []string{}, List: []string{}, ErrDoc: "none"}
 		if err != nil {
 			r.Status = 500
